@@ -2,6 +2,7 @@ package ksim
 
 import (
 	"container/heap"
+	"strings"
 	"k8s.io/apimachinery/pkg/api/meta"
 	"fmt"
 	"runtime/debug"
@@ -159,12 +160,38 @@ func (s *Sim) After(d time.Duration, fn func()) {
 	heap.Push(&s.timers, timer{at: time.Now().Add(d), seq: s.timerSeq, fn: fn})
 }
 
+func (s *Sim) firedEvents() string {
+	if s.User == nil {
+		return ""
+	}
+	set := map[string]bool{}
+	for _, e := range s.User.sc.Events {
+		if e.Done {
+			set[e.Kind] = true
+		}
+	}
+	ks := make([]string, 0, len(set))
+	for k := range set {
+		ks = append(ks, k)
+	}
+	sort.Strings(ks)
+	return strings.Join(ks, "+")
+}
+
 func (s *Sim) stat(k string)  { s.Stats[k]++ }
 func (s *Sim) probe(k string) { s.Probes[k]++ }
 
 func (s *Sim) Violate(prop, oracle, sig string, seq uint64, format string, a ...interface{}) {
 	if len(s.Violations) >= 50 {
 		return
+	}
+	// the signature carries the set of user disturbances fired so far: a finding recorded for a
+	// disturbed history never masks a violation in an undisturbed one
+	sig += "|ev=" + s.firedEvents()
+	for _, v := range s.Violations {
+		if v.Property == prop && v.Sig == sig {
+			return // one report per signature and run
+		}
 	}
 	s.Violations = append(s.Violations, Violation{Property: prop, Oracle: oracle, Sig: sig, Seq: seq, Step: s.Steps, Detail: fmt.Sprintf(format, a...)})
 }
